@@ -1,13 +1,13 @@
 (* The application-level state machine: operations (decoded from the harness wire
    format), one [step] per ABCI call, runs over operation lists. *)
 From SaoVerif Require Import Base.Prelude Base.Ints Base.Dec Model.Did Model.Types Model.Monad Model.Bank Model.Select
-     Model.Node Model.Storage Model.Sao.
+     Model.Node Model.Storage Model.Sao Model.Hooks.
 From RecordUpdate Require Import RecordUpdate.
 Import RecordSetNotations.
 
 Inductive Op :=
 | OBeginBlock
-| OEndBlock
+| OEndBlock (evs : list StEvent)   (* validator state changes of the staking end-blocker *)
 | ODid (o : DidOp)
 | ONodeCreate (creator : string)
 | ONodeReset (m : ResetMsg)
@@ -24,7 +24,9 @@ Inductive Op :=
 | OUpdatePermission (creator provider owner data : string) (ro rw : list string) (sg : SigO) (dids_valid : bool)
 | OReportFaults (creator provider : string) (fl : list (FaultIn * string))
 | ORecoverFaults (creator provider : string) (fl : list (FaultIn * string))
-| OSend (from to : string) (amt : Z).
+| OSend (from to : string) (amt : Z)
+| OStaking (evs : list StEvent)
+| OSimulate (evs : list StEvent).  (* gas simulation of a staking tx: nothing is kept but [pg] *)
 
 (** * one ABCI call *)
 Inductive Outcome := OutTx (c : cls) (detail : string) | OutBlock (c : bcls) (detail : string).
@@ -58,17 +60,24 @@ Definition tx_of (cx : Ctx) (op : Op) : option (M unit) :=
   | OReportFaults c p fl => Some (sao_report_faults cx c p fl)
   | ORecoverFaults c p fl => Some (sao_recover_faults cx c p fl)
   | OSend f t a => Some (send_strict f t a)
-  | OBeginBlock | OEndBlock => None
+  | OStaking evs => Some (staking_tx evs)
+  | OSimulate _ | OBeginBlock | OEndBlock _ => None
   end.
 
 (* end-blockers of the custom modules in app.go's order: sao, node, (order), model, (did), (market) *)
-Definition end_block (cx : Ctx) : M unit :=
-  end_block_sao cx ;;; end_block_node cx ;;; end_block_model cx.
+Definition end_block (cx : Ctx) (evs : list StEvent) : M unit :=
+  staking_tx evs ;;; end_block_sao cx ;;; end_block_node cx ;;; end_block_model cx.
 
 Definition step (cx : Ctx) (s : State) (op : Op) : State * Outcome :=
   match op with
   | OBeginBlock => let '(s', c, d) := block_phase (begin_block cx) s in (s', OutBlock c d)
-  | OEndBlock => let '(s', c, d) := block_phase (end_block cx) s in (s', OutBlock c d)
+  | OEndBlock evs => let '(s', c, d) := block_phase (end_block cx evs) s in (s', OutBlock c d)
+  | OSimulate evs =>
+      (* runs on a branch of the state that is thrown away; the process-level variable is shared *)
+      match staking_tx evs s with
+      | Ok _ s' | Err _ s' => (s <| pg := pg s' |>, OutTx COk "")
+      | _ => (s, OutTx COk "")
+      end
   | _ => match tx_of cx op with
          | Some m => let '(s', c, d) := deliver m s in (s', OutTx c d)
          | None => (s, OutTx COk "")
@@ -99,10 +108,28 @@ Definition dec_faults (v : value) : option (list (FaultIn * string)) :=
   | _ => None
   end.
 
+Definition dec_ev (v : value) : option StEvent :=
+  match v with
+  | VL [VS "BeforeShares"; VS d; VS vl] => Some (EvBeforeShares d vl)
+  | VL [VS "BeforeRemoved"; VS d; VS vl] => Some (EvBeforeRemoved d vl)
+  | VL [VS "AfterModified"; VS d; VS vl] => Some (EvAfterModified d vl)
+  | VL [VS "ValHook"; VS vl] => Some (EvValHook vl)
+  | VL [VS "SetVal"; VS vl; x] => match dec_val x with Some x => Some (EvSetVal vl x) | None => None end
+  | VL [VS "DelVal"; VS vl] => Some (EvDelVal vl)
+  | VL [VS "SetDel"; VS k; x] => match dec_del x with Some x => Some (EvSetDel k x) | None => None end
+  | VL [VS "DelDel"; VS k] => Some (EvDelDel k)
+  | VL [VS "Bal"; VS a; VZ d] => Some (EvBal a d)
+  | VL [VS "Fail"] => Some EvFail
+  | _ => None
+  end.
+
 Definition dec_op (v : value) : option Op :=
   match v with
   | VL [VS "BeginBlock"] => Some OBeginBlock
-  | VL [VS "EndBlock"] => Some OEndBlock
+  | VL [VS "EndBlock"] => Some (OEndBlock [])
+  | VL [VS "EndBlock"; VL evs] => match mapM dec_ev evs with Some l => Some (OEndBlock l) | None => None end
+  | VL [VS "Staking"; VL evs] => match mapM dec_ev evs with Some l => Some (OStaking l) | None => None end
+  | VL [VS "Simulate"; VL evs] => match mapM dec_ev evs with Some l => Some (OSimulate l) | None => None end
   | VL [VS "NodeCreate"; VS c] => Some (ONodeCreate c)
   | VL [VS "NodeReset"; VS c; VS peer; VZ st; VS val; tx; pv] =>
       match unLS tx, unbool pv with
